@@ -24,7 +24,7 @@ for idn in sys.argv[1:]:
     files = subprocess.run(["git", "apply", "--numstat", os.path.join(dst, "patch.diff")], capture_output=True, text=True, cwd="/repo").stdout.split("\n")
     meta = {
         "id": idn, "property": am.get("property", idn[:3]),
-        "origin": "sub-agent given only the property text and a scratch worktree of /repo (round %s)" % {"a": 1, "b": 2, "c": 3, "d": 4}.get(idn[3], "?"),
+        "origin": "sub-agent given only the property text and a scratch worktree of /repo (round %s)" % {"a": 1, "b": 2, "c": 3, "d": 4, "e": 5, "f": 6, "g": 7, "h": 8, "i": 9}.get(idn[3], "?"),
         "summary": am.get("summary", ""), "needs_to_manifest": am.get("needs_to_manifest", ""),
         "files_touched": [l.split("\t")[2] for l in files if l.count("\t") == 2],
         "sub_agent_ran": am.get("ran", ""),
